@@ -183,7 +183,7 @@ def run(ctx: Ctx):
     rng = ctx.rng
     reqs = []
     directed_chosen_price(ctx, rng)
-    n = ctx.scale(220, 8000)
+    n = ctx.scale(500, 12000)
     for i in range(n):
         chosen_stream = (i % 8 == 7)
         w = U.World(rng)
